@@ -19,6 +19,16 @@
 // Pending lookup requests are read by offering, in one select, a sink read and a barrier, until 40
 // barriers in a row were taken instead (see readSink). The harness therefore needs no prediction of
 // what an op causes: missing and surplus deliveries / requests are both observed directly.
+//
+// Ops B / U close and open a gate in the downstream capture handler: while it is closed every
+// DispatchMetricMap / DispatchEvent call of the stage snapshots its argument and parks at the gate.
+// The owner loop never calls downstream itself (handleInstanceInfo starts goroutines), so arrivals
+// that miss the cache, sink reads, completions and emissions go on while the release goroutines are
+// stuck; quiescence then is "goroutine count = idle level + goroutines parked at the gate". U opens
+// the gate and lets the parked calls return ONE AT A TIME, in the order they arrived, settling after
+// each, so a released goroutine runs to its end (its further calls pass the open gate) before the next
+// one starts: the order of the log is deterministic. An arrival with a cache hit would park its CALLER
+// (the harness) inside the stage; such an op opens the gate first (see the driver's comment).
 package main
 
 import (
@@ -211,11 +221,11 @@ func parseCase(line string) ([]op, bool) {
 				return nil, false
 			}
 			ops = append(ops, op{kind: 'L'})
-		case "E":
+		case "E", "B", "U":
 			if len(p) != 1 {
 				return nil, false
 			}
-			ops = append(ops, op{kind: 'E'})
+			ops = append(ops, op{kind: p[0][0]})
 		case "I":
 			if len(p) < 3 {
 				return nil, false
@@ -274,13 +284,64 @@ func (s *scripted) setView(v map[gostatsd.Source]peekRec) {
 }
 
 type capture struct {
-	mu  sync.Mutex
-	log []string
+	mu      sync.Mutex
+	log     []string
+	closed  bool            // the gate: downstream does not return from its dispatch calls
+	waiters []chan struct{} // calls parked at the gate, in arrival order
 }
 
+// add is what a dispatch call does with the snapshot s of its argument: log it and return, or park at the
+// closed gate first (the snapshot was taken when the call was made).
 func (c *capture) add(s string) {
 	c.mu.Lock()
+	if c.closed {
+		w := make(chan struct{})
+		c.waiters = append(c.waiters, w)
+		c.mu.Unlock()
+		<-w
+		c.mu.Lock()
+	}
 	c.log = append(c.log, s)
+	c.mu.Unlock()
+}
+
+func (c *capture) setClosed(b bool) {
+	c.mu.Lock()
+	c.closed = b
+	c.mu.Unlock()
+}
+
+func (c *capture) isClosed() bool {
+	c.mu.Lock()
+	defer c.mu.Unlock()
+	return c.closed
+}
+
+func (c *capture) waiting() int {
+	c.mu.Lock()
+	defer c.mu.Unlock()
+	return len(c.waiters)
+}
+
+// releaseOne lets the oldest parked call return.
+func (c *capture) releaseOne() bool {
+	c.mu.Lock()
+	defer c.mu.Unlock()
+	if len(c.waiters) == 0 {
+		return false
+	}
+	close(c.waiters[0])
+	c.waiters = c.waiters[1:]
+	return true
+}
+
+func (c *capture) releaseAll() {
+	c.mu.Lock()
+	c.closed = false
+	for _, w := range c.waiters {
+		close(w)
+	}
+	c.waiters = nil
 	c.mu.Unlock()
 }
 func (c *capture) EstimatedTags() int { return 0 }
@@ -360,11 +421,11 @@ func (r *runner) barrier() {
 	r.within("barrier", func() { r.ci.info <- gostatsd.InstanceInfo{IP: syncSource} })
 }
 
-// waitGoroutines polls until no more than n goroutines exist (cases run one at a time per process).
-func waitGoroutines(n int, d time.Duration) bool {
+// waitGoroutines polls until no more than n+parked() goroutines exist (cases run one at a time per process).
+func waitGoroutines(n int, d time.Duration, parked func() int) bool {
 	t0 := time.Now()
 	for spins := 0; ; spins++ {
-		if runtime.NumGoroutine() <= n {
+		if runtime.NumGoroutine() <= n+parked() {
 			return true
 		}
 		if time.Since(t0) > d {
@@ -384,9 +445,25 @@ func waitGoroutines(n int, d time.Duration) bool {
 // and surplus deliveries are both seen, at once.
 func (r *runner) settle(what string) {
 	r.barrier()
-	if !waitGoroutines(r.idle, r.dl) {
+	if !waitGoroutines(r.idle, r.dl, r.cap.waiting) {
 		panic(hang{what + ": goroutines started by the stage do not finish"})
 	}
+}
+
+// unblock opens the gate and lets the parked calls return one at a time, oldest first.
+func (r *runner) unblock(what string) {
+	r.cap.setClosed(false)
+	for r.cap.releaseOne() {
+		r.settle(what)
+	}
+}
+
+func viewHit(view map[gostatsd.Source]peekRec, s gostatsd.Source) bool {
+	if s == gostatsd.UnknownSource {
+		return true
+	}
+	p, ok := view[s]
+	return ok && p.kind != 'm'
 }
 
 func (r *runner) deliveries(from int) string {
@@ -482,7 +559,11 @@ func (r *runner) emitOnce() (string, bool) {
 var baseGoroutines = 1
 
 func runOne(line string) (out string) {
+	var cp *capture
 	defer func() {
+		if cp != nil {
+			cp.releaseAll()
+		}
 		if e := recover(); e != nil {
 			if h, ok := e.(hang); ok {
 				out = "HANG " + h.what
@@ -496,11 +577,11 @@ func runOne(line string) (out string) {
 		return "BAD_CASE"
 	}
 	dl := deadline()
-	waitGoroutines(baseGoroutines, dl) // leftovers of the previous case are gone
+	waitGoroutines(baseGoroutines, dl, func() int { return 0 }) // leftovers of the previous case are gone
 	ctx, cancel := context.WithCancel(context.Background())
 	defer cancel()
 	ci := &scripted{sink: make(chan gostatsd.Source), info: make(chan gostatsd.InstanceInfo), view: map[gostatsd.Source]peekRec{}}
-	cp := &capture{}
+	cp = &capture{}
 	ch := statsd.NewCloudHandler(ci, cp)
 	runDone := make(chan interface{}, 1)
 	idle := runtime.NumGoroutine() + 1
@@ -522,12 +603,25 @@ func runOne(line string) (out string) {
 		case 'M':
 			ci.setView(o.peek)
 			mm := mmc.ParseMap(o.mmToks)
+			if cp.isClosed() {
+				hit := false
+				mm.Counters.Each(func(_, _ string, c gostatsd.Counter) { hit = hit || viewHit(o.peek, c.Source) })
+				mm.Gauges.Each(func(_, _ string, g gostatsd.Gauge) { hit = hit || viewHit(o.peek, g.Source) })
+				mm.Timers.Each(func(_, _ string, t gostatsd.Timer) { hit = hit || viewHit(o.peek, t.Source) })
+				mm.Sets.Each(func(_, _ string, x gostatsd.Set) { hit = hit || viewHit(o.peek, x.Source) })
+				if hit {
+					r.unblock(what) // the caller itself would park inside the stage
+				}
+			}
 			r.within(what, func() { ch.DispatchMetricMap(ctx, mm) })
 			r.settle(what)
 			segs = append(segs, "M"+r.deliveries(from))
 		case 'V':
 			ci.setView(o.peek)
 			e := o.ev
+			if cp.isClosed() && viewHit(o.peek, e.Source) {
+				r.unblock(what)
+			}
 			r.within(what, func() { ch.DispatchEvent(ctx, e) })
 			r.settle(what)
 			segs = append(segs, "V"+r.deliveries(from))
@@ -555,6 +649,13 @@ func runOne(line string) (out string) {
 			r.within(what, func() { ci.info <- info })
 			r.settle(what)
 			segs = append(segs, "I"+r.deliveries(from))
+		case 'B':
+			cp.setClosed(true)
+			segs = append(segs, "B"+r.deliveries(from))
+		case 'U':
+			r.unblock(what)
+			r.settle(what)
+			segs = append(segs, "U"+r.deliveries(from))
 		case 'E':
 			t0 := time.Now()
 			for {
@@ -569,6 +670,13 @@ func runOne(line string) (out string) {
 				runtime.Gosched()
 			}
 		}
+	}
+	if cp.isClosed() {
+		// a case that ends blocked: what is stuck is observed in a final U segment
+		from := cp.count()
+		r.unblock("final unblock")
+		r.settle("final unblock")
+		segs = append(segs, "U"+r.deliveries(from))
 	}
 	cancel()
 	select {
